@@ -1157,6 +1157,11 @@ def analyse(ck, prog, deep=False):
             check_pause(ck, prog, eng, layer)
         check_lm_suppression(ck, prog)
         check_no_port(ck, prog)
+        # what a helper sends depends on its arguments, not on earlier calls
+        from .. import purity
+        reqs = [n for n in public_methods(cls) if not n.startswith('_')
+                and n not in ('connect', 'disconnect', '__init__', 'find_first', 'parse_version')]
+        purity.check_instance_state(ck, cls, reqs, 'C06-R-state')
     finally:
         poly.INT_VARS.clear()
     for k, v in list(extracted['ebb3'].items())[:10]:
